@@ -73,8 +73,8 @@ func hopByHopHeaders(respHeader http.Header) map[string]struct{} {
 		"Proxy-Authorization":       {},
 		// Also see net/http/response.go "respExcludeHeader" for additional excluded headers.
 	}
-	// Fields listed in the Connection header field
-	for field := range TrimmedCSVCanonicalSeq(respHeader.Get("Connection")) {
+	// Fields listed in the Connection header field; all its field lines together are the list (RFC 9110 §5.3)
+	for field := range TrimmedCSVCanonicalSeq(strings.Join(respHeader.Values("Connection"), ",")) {
 		m[field] = struct{}{}
 	}
 	return m
